@@ -32,6 +32,11 @@
    statement); timed waits follow the due-time specification that unit C06 proves equal to the
    code-level con::timer (resume the waiter minimal in (due, registration) while due <= frame
    time; `wait` registers frame time + d).
+   The observation of every host operation: what the call reported (label not found / thread
+   still alive + the bound parameters), every element of every record (a value, `pending`
+   for a Pointer-typed cell), GetNumRunningScripts, the number of threads, and the two flags
+   [ohang] (resume loop out of fuel) and [oub] that the real engine can only show as a hang
+   or a crash.
    Abstracted: payload memory of values (strings, vectors, arrays are opaque data (kind, index));
    the fast path of operator= for simple types (same effect); the argument cells of a record
    carry no identity (they never hold the Pointer type); a script instance is counted as
